@@ -462,14 +462,23 @@ func (cache *dirCache) clean(highWaterMark, lowWaterMark uint64) uint64 {
 		return entries[i].Atime < entries[j].Atime
 	})
 	for _, entry := range entries {
-		if _, marked := cache.isMarked(entry.Path); marked {
-			continue
-		}
-
 		log.Debug("Cleaning %s, accessed %s, saves %s", entry.Path, humanize.Time(time.Unix(entry.Atime, 0)), humanize.Bytes(entry.Size))
 		// Try to rename the directory first so we don't delete bits while someone might access them.
+		// Checking that it hasn't been marked since we walked the cache and renaming it have to be a single
+		// step as far as markDir is concerned; otherwise something that is retrieved right in between
+		// is marked (and successfully read) but removed anyway.
 		newPath := entry.Path + "="
-		if err := os.Rename(entry.Path, newPath); err != nil {
+		cache.mutex.Lock()
+		_, marked := cache.added[entry.Path]
+		var err error
+		if !marked {
+			err = os.Rename(entry.Path, newPath)
+		}
+		cache.mutex.Unlock()
+		if marked {
+			continue
+		}
+		if err != nil {
 			// Something left over from an interrupted store or clean may be in the way;
 			// get rid of that (unless it's one of ours that's still being written) and try again.
 			if _, marked := cache.isMarked(newPath); marked || fs.RemoveAll(newPath) != nil || os.Rename(entry.Path, newPath) != nil {
